@@ -44,7 +44,10 @@ def build_graph(n, kseq, dseq, rev, keyf=lambda i: i):
         per = {k: OrderedSet() for k in 'hwmc'}
         for j in rng:
             k = kseq[(i - 1) * n + (j - 1)]
-            if k != 'n':
+            if k == 'b':      # listed in both deps and weak_deps
+                per['h'].add(keyf(j))
+                per['w'].add(keyf(j))
+            elif k != 'n':
                 per[k].add(keyf(j))
         if dseq and dseq[i - 1] != 'n':
             per[dseq[i - 1]].add(keyf(0))     # key 0 is never in the graph
@@ -94,7 +97,10 @@ def predicates(n, kseq, dseq, allow, rev, outcome):
     for i in range(1, n + 1):
         for j in range(1, n + 1):
             k = kseq[(i - 1) * n + (j - 1)]
-            if k != 'n':
+            if k == 'b':
+                E['h'].append((i, j))
+                E['w'].append((i, j))
+            elif k != 'n':
                 E[k].append((i, j))
     hard = E['h'] + E['m']
     ctrl = E['c']
@@ -246,7 +252,7 @@ def _py_random_chunk(args):
         n = rnd.randint(nmin, nmax)
         dens = rnd.choice([0.1, 0.2, 0.35])
         kseq = tuple(
-            (rnd.choice('hhwwmc') if rnd.random() < dens else 'n')
+            (rnd.choice('hhwwmcb') if rnd.random() < dens else 'n')
             for _ in range(n * n))
         rev = rnd.random() < 0.5
         seen.add(hash((kseq, rev)))
@@ -332,8 +338,8 @@ def replay(path, rep):
 
 
 def run(tier, seed, rep):
-    cfgs = ['Toposort_a', 'Toposort_d'] if tier == 'quick' else \
-           ['Toposort_a', 'Toposort_b', 'Toposort_c', 'Toposort_d']
+    cfgs = ['Toposort_a', 'Toposort_e', 'Toposort_d'] if tier == 'quick' else \
+           ['Toposort_a', 'Toposort_e', 'Toposort_b', 'Toposort_c', 'Toposort_d']
     states = trans = 0
     traces = 0
     per_cfg = {}
@@ -387,7 +393,7 @@ def run(tier, seed, rep):
         # ---- beyond TLC's universe: predicate assertions alone
         py = {}
         if tier == 'thorough':
-            labels = ('n', 'h', 'w', 'm', 'c')
+            labels = ('n', 'h', 'w', 'm', 'c', 'b')
             n = 3
             total = len(labels) ** (n * n)
             step = total // (lib.NCPU * 8) + 1
